@@ -53,6 +53,8 @@ type Step struct {
 	CheckExistence   bool
 	LockOnlyIfExists bool
 	WaitMs           int64
+	// set / delete in a pessimistic txn: lock the key first (a DML statement); the write is skipped if the lock fails
+	LockFirst bool
 	// faults armed for this call
 	Faults []FaultSpec
 	// advance
@@ -69,6 +71,14 @@ func (s *Step) String() string {
 		fmt.Fprintf(&b, "(%q,%q)", s.Lo, s.Hi)
 	case "set", "insert":
 		fmt.Fprintf(&b, "(%s=%s)", strings.Join(s.Keys, ","), s.Val)
+		if s.LockFirst {
+			b.WriteString("!")
+		}
+	case "delete":
+		fmt.Fprintf(&b, "(%s)", strings.Join(s.Keys, ","))
+		if s.LockFirst {
+			b.WriteString("!")
+		}
 	case "lock":
 		fmt.Fprintf(&b, "(%s,ret=%v,chk=%v,onlyIfExists=%v,wait=%d)", strings.Join(s.Keys, ","), s.ReturnValues, s.CheckExistence, s.LockOnlyIfExists, s.WaitMs)
 	case "advance":
@@ -312,6 +322,9 @@ func (w *World) Exec(s *Step) {
 			w.Fail("txn %d %s(%q,%q) yielded key %q which no transaction of the case ever wrote", t.ID, s.Op, s.Lo, s.Hi, k)
 		}
 	case "set":
+		if !w.lockFirst(t, txn, c, s) {
+			return
+		}
 		v := []byte(s.Val)
 		if err := txn.Set([]byte(s.Keys[0]), v); err != nil {
 			w.Fail("Set failed: %v", err)
@@ -347,12 +360,16 @@ func (w *World) Exec(s *Step) {
 		if err != nil {
 			txn.GetMemBuffer().Cleanup(h)
 			w.Log = append(w.Log, fmt.Sprintf("  pessimistic insert refused: %v", err))
+			w.settleFailedLock()
 			return
 		}
 		txn.GetMemBuffer().Release(h)
 		t.Locks = append(t.Locks, LockRec{Keys: []string{s.Keys[0]}, ForUpdateTS: fu, Step: w.StepNo})
 		t.Writes = append(t.Writes, WriteRec{Key: s.Keys[0], Op: "insert", Value: v, Step: w.StepNo})
 	case "delete":
+		if !w.lockFirst(t, txn, c, s) {
+			return
+		}
 		if err := txn.Delete([]byte(s.Keys[0])); err != nil {
 			w.Fail("Delete failed: %v", err)
 		}
@@ -387,6 +404,7 @@ func (w *World) Exec(s *Step) {
 		err = txn.LockKeys(ctx, lc, ks...)
 		if err != nil {
 			w.Log = append(w.Log, fmt.Sprintf("  lock error: %v", err))
+			w.settleFailedLock()
 			return
 		}
 		var locked []string
@@ -428,6 +446,32 @@ func (w *World) Exec(s *Step) {
 	}
 }
 
+// lockFirst acquires the pessimistic lock of a locked DML statement; false = the statement failed.
+func (w *World) lockFirst(t *TxnRec, txn *transaction.KVTxn, c *Client, s *Step) bool {
+	if !t.Pessimistic || !s.LockFirst {
+		return true
+	}
+	fu, err := w.forUpdateTS(c)
+	if err == nil {
+		err = txn.LockKeys(context.Background(), kv.NewLockCtx(fu, kv.LockNoWait, time.Now()), []byte(s.Keys[0]))
+	}
+	if err != nil {
+		w.Log = append(w.Log, fmt.Sprintf("  statement refused: %v", err))
+		w.settleFailedLock()
+		return false
+	}
+	t.Locks = append(t.Locks, LockRec{Keys: []string{s.Keys[0]}, ForUpdateTS: fu, Step: w.StepNo})
+	return true
+}
+
+// settleFailedLock gives the asynchronous pessimistic rollback of a failed LockKeys time to finish before
+// the next step on unistore (see GenProgram: unistore mishandles a prewrite racing with that rollback).
+func (w *World) settleFailedLock() {
+	if w.Cl.Backend == Uni {
+		w.Cl.Drain(2*time.Millisecond, 3*time.Second)
+	}
+}
+
 func (w *World) forUpdateTS(c *Client) (uint64, error) {
 	return c.Store.CurrentTimestamp(oracle.GlobalTxnScope)
 }
@@ -449,11 +493,7 @@ func (w *World) Finish() (*Truth, error) {
 	}
 	w.Cl.Drain(3*time.Millisecond, 3*time.Second)
 	aud := w.Cl.Clients[len(w.Cl.Clients)-1]
-	if w.Cl.Clock != nil {
-		w.Cl.Clock.Advance(time.Hour)
-	} else {
-		time.Sleep(5 * time.Millisecond)
-	}
+	w.Cl.Expire()
 	if err := w.ResolveAll(aud); err != nil {
 		return nil, err
 	}
@@ -469,7 +509,7 @@ func (w *World) ResolveAll(c *Client) error {
 		if _, err := c.Store.CurrentTimestamp(oracle.GlobalTxnScope); err != nil {
 			return err
 		}
-		locks, err := probe.ScanLocks(context.Background(), nil, nil, math.MaxUint64)
+		locks, err := probe.ScanLocks(context.Background(), nil, scanEnd, math.MaxUint64)
 		if err != nil {
 			return err
 		}
@@ -484,9 +524,12 @@ func (w *World) ResolveAll(c *Client) error {
 			time.Sleep(5 * time.Millisecond)
 		}
 	}
-	locks, _ := probe.ScanLocks(context.Background(), nil, nil, math.MaxUint64)
+	locks, _ := probe.ScanLocks(context.Background(), nil, scanEnd, math.MaxUint64)
 	if len(locks) > 0 {
 		return fmt.Errorf("auditor could not resolve %d locks (first: %v)", len(locks), locks[0])
 	}
 	return nil
 }
+
+// scanEnd bounds lock scans: StoreProbe.ScanLocks treats a nil end key as "before every key".
+var scanEnd = []byte{0xff, 0xff, 0xff, 0xff}
